@@ -103,30 +103,35 @@ structure St where
   inIgnoreBlock : Bool := false
   deriving DecidableEq, Repr
 
+/-- the directive branches of `process_line` (only for whole-line line comments):
+    ignore-end, ignore-start, ignore-next N, in this order -/
+def directiveOf (syn : Syntax) (trimmed : List Char) (st : St) : Option (LineClass × St) :=
+  if isSingleLineComment syn trimmed then
+    if hasDirective syn Generated.ignoreEndDirective trimmed then
+      some (.comment, { st with inIgnoreBlock := false })
+    else if hasDirective syn Generated.ignoreStartDirective trimmed then
+      some (.comment, { st with inIgnoreBlock := true })
+    else match parseIgnoreNext syn trimmed with
+      | some n => some (.comment, { st with ignoreRemaining := n })
+      | none => none
+  else none
+
+/-- the classification ladder of `process_line` below the directive branches -/
+def ladder (syn : Syntax) (line : List Char) (st : St) : LineClass × St :=
+  if st.inIgnoreBlock then (.ignored, { st with ml := trackState syn line st.ml })
+  else if st.ignoreRemaining > 0 then
+    (.ignored, { st with ignoreRemaining := st.ignoreRemaining - 1, ml := trackState syn line st.ml })
+  else if st.ml.isIn then (.comment, { st with ml := updateInside line st.ml })
+  else if (trim line).isEmpty then (.blank, st)
+  else match findMultiLineStart syn line with
+    | some m => (.comment, { st with ml := enterFrom line m st.ml })
+    | none => if isSingleLineComment syn (trim line) then (.comment, st) else (.code, st)
+
 /-- `process_line`: class of the line and the new state -/
 def processLine (syn : Syntax) (line : List Char) (st : St) : LineClass × St :=
-  let trimmed := trim line
-  let directive : Option (LineClass × St) :=
-    if isSingleLineComment syn trimmed then
-      if hasDirective syn Generated.ignoreEndDirective trimmed then
-        some (.comment, { st with inIgnoreBlock := false })
-      else if hasDirective syn Generated.ignoreStartDirective trimmed then
-        some (.comment, { st with inIgnoreBlock := true })
-      else match parseIgnoreNext syn trimmed with
-        | some n => some (.comment, { st with ignoreRemaining := n })
-        | none => none
-    else none
-  match directive with
+  match directiveOf syn (trim line) st with
   | some r => r
-  | none =>
-    if st.inIgnoreBlock then (.ignored, { st with ml := trackState syn line st.ml })
-    else if st.ignoreRemaining > 0 then
-      (.ignored, { st with ignoreRemaining := st.ignoreRemaining - 1, ml := trackState syn line st.ml })
-    else if st.ml.isIn then (.comment, { st with ml := updateInside line st.ml })
-    else if trimmed.isEmpty then (.blank, st)
-    else match findMultiLineStart syn line with
-      | some m => (.comment, { st with ml := enterFrom line m st.ml })
-      | none => if isSingleLineComment syn trimmed then (.comment, st) else (.code, st)
+  | none => ladder syn line st
 
 def LineStats.bump (s : LineStats) : LineClass → LineStats
   | .code => { s with total := s.total + 1, code := s.code + 1 }
